@@ -129,7 +129,7 @@ def main():
             seed_target = os.path.join(scratch.CACHE, "kani-target-" + u["config"] + ("-" + "-".join(u.get("features", ())) if u.get("features") else ""))
             for h in hs:
                 jobs.append(dict(ws=ws, harness=h, timeout=u.get("timeout", {}).get(tier, 900), extra=u.get("extra", ()),
-                                 mem_kb=u.get("mem_kb", 24_000_000), weight=u.get("weight", 2), seed_target=seed_target, unit=u))
+                                 mem_kb=u.get("mem_kb", 24_000_000), weight=(u["weight_of"](h) if u.get("weight_of") else u.get("weight", 2)), seed_target=seed_target, unit=u))
         res = kani.run_pool(jobs, os.path.join(logroot, "kani"), capacity=a.jobs)
         for j in jobs:
             all_results.append((j["unit"], res[(id(j["ws"]), j["harness"])]))
